@@ -178,10 +178,10 @@ ReadRet ==                          \* OBSERVABLE: the read returned cret
 \* name it never received ("zz"), a repeated answer, garbage, an oversized length, a truncated message
 AnswerNames == Names \cup {"zz"}
 \* "closein" / "waitabort" in FaultKinds switch on two further things a client may do (below); they are not writes
-WriteKinds == {"resp"} \cup (FaultKinds \ {"closein", "waitabort"})
+WriteKinds == {"resp"} \cup (FaultKinds \ {"closein", "waitabort", "closeout"})
 
 WriteCall(kind, n) ==               \* OBSERVABLE: the client starts writing to stdout
-  /\ CliIdle
+  /\ CliIdle /\ ~outClosed
   /\ kind \in WriteKinds
   /\ (kind = "resp") => (n \in inbox \/ (AllowZZ /\ n = "zz") \/ (AllowEarly /\ wif # NoW /\ wif.n = n) \/ (AnyName /\ n \in Names))
   /\ (kind # "resp") => n = "-"
@@ -212,6 +212,22 @@ CloseInCall ==                      \* OBSERVABLE
                  kpc, wpc, wres, regs, cbs, cblog>>
 CloseInRet ==                       \* OBSERVABLE
   /\ cpc = "closingin" /\ cpc' = "idle"
+  /\ UNCHANGED <<pc, idx, res, lock, pending, closedSend, err, terminated, done, wif, stdinR, wof, rpartial, outClosed,
+                 rpc, rmsg, rerr, seen, cop, cret, cops, inbox, aborted, exitFail, readPh, pipesClosed, pdone,
+                 kpc, wpc, wres, regs, cbs, cblog, hist>>
+
+\* The client closes its own stdout and goes on running (and reading requests): the reader sees a clean
+\* end of the stream while requests may still be on their way - the reader's shutdown (close the send side,
+\* then fail what is pending) races with the senders.
+CloseOutCall ==                     \* OBSERVABLE
+  /\ CliIdle /\ ~outClosed /\ "closeout" \in FaultKinds
+  /\ cpc' = "closingout" /\ cops' = cops + 1 /\ outClosed' = TRUE
+  /\ H(<<"CO">>)
+  /\ UNCHANGED <<pc, idx, res, lock, pending, closedSend, err, terminated, done, wif, stdinR, wof, rpartial,
+                 rpc, rmsg, rerr, seen, cop, cret, inbox, aborted, exitFail, readPh, pipesClosed, pdone,
+                 kpc, wpc, wres, regs, cbs, cblog>>
+CloseOutRet ==                      \* OBSERVABLE
+  /\ cpc = "closingout" /\ cpc' = "idle"
   /\ UNCHANGED <<pc, idx, res, lock, pending, closedSend, err, terminated, done, wif, stdinR, wof, rpartial, outClosed,
                  rpc, rmsg, rerr, seen, cop, cret, cops, inbox, aborted, exitFail, readPh, pipesClosed, pdone,
                  kpc, wpc, wres, regs, cbs, cblog, hist>>
@@ -370,7 +386,7 @@ Observable == \/ \E s \in Senders : SendCall(s) \/ SendRet(s)
               \/ ReadCall \/ ReadRet
               \/ (\E k \in WriteKinds : \E n \in AnswerNames \cup {"-"} : WriteCall(k, n)) \/ WriteRet
               \/ (\E f \in BOOLEAN : Exit(f))
-              \/ CloseInCall \/ CloseInRet \/ WaitAbortCall \/ WaitAbortRet
+              \/ CloseInCall \/ CloseInRet \/ WaitAbortCall \/ WaitAbortRet \/ CloseOutCall \/ CloseOutRet
               \/ CbStep \/ CloseCall \/ CloseRet \/ WaitCall \/ WaitRet
 
 \* explicit stuttering at the quiescent end so that TLC's deadlock check finds real hangs only
@@ -385,7 +401,7 @@ Fair == /\ \A s \in Senders : WF_vars(SendCall(s)) /\ WF_vars(CheckErr(s)) /\ WF
         /\ WF_vars(ClosePipes) /\ WF_vars(ProcDone)
         /\ WF_vars(Read) /\ WF_vars(Lookup) /\ WF_vars(CbStep) /\ WF_vars(Fail) /\ WF_vars(CloseSendByReader) /\ WF_vars(ReaderDone)
         /\ WF_vars(CloseCall) /\ WF_vars(CloseDo) /\ WF_vars(CloseRet) /\ WF_vars(WaitCall) /\ WF_vars(WaitDone) /\ WF_vars(WaitRet)
-        /\ WF_vars(Exit(FALSE)) /\ WF_vars(CloseInRet) /\ WF_vars(WaitAbortRet)
+        /\ WF_vars(Exit(FALSE)) /\ WF_vars(CloseInRet) /\ WF_vars(WaitAbortRet) /\ WF_vars(CloseOutRet)
 Spec == Init /\ [][Next]_vars /\ Fair
 
 (* -------------------------------------------------------------- properties *)
